@@ -77,8 +77,9 @@ func (AllowAll) Authenticate(*auth.Request) (string, *auth.Error) { return "u", 
 // Pub is a fake publisher session.
 type Pub struct {
 	Logger
-	ID     string
-	closed atomic.Bool
+	ID      string
+	closed  atomic.Bool
+	OnClose func() // called once, on the first Close
 }
 
 // Closed reports whether Close was called.
@@ -87,8 +88,11 @@ func (p *Pub) Closed() bool { return p.closed.Load() }
 // Close is called by the path when the publisher is kicked/replaced (like the real sessions' Close it is
 // safe for concurrent use).
 func (p *Pub) Close() {
-	p.closed.Store(true)
+	first := p.closed.CompareAndSwap(false, true)
 	vsched.Log("close %s", p.ID)
+	if first && p.OnClose != nil {
+		p.OnClose()
+	}
 }
 
 // APISourceDescribe implements defs.Source.
